@@ -23,6 +23,7 @@ func init() {
 			{Pkg: "./metrics", Func: "ZZBucketBound", Reach: []string{"bucket"}, Bounds: "all n <= 2^63-1"},
 			{Pkg: "./metrics", Func: "ZZBucketMonotone", Reach: []string{"bucket2"}, Bounds: "all n < 2^63-1 (successor form)"},
 			{Pkg: "./metrics", Func: "ZZHistSequential", Params: map[string]int64{"m": 2}, Reach: []string{"periods-read"}, Bounds: "fresh unsampled histogram, two reporting periods of 0..2 symbolic observations (0..2^63-1) each, read back through getAllHistograms / getAllBucketHistograms: count, 23 percentiles within [min,max] and among the period's observations, kept, bucket counters; getBucket summarised (decided separately for all inputs)"},
+			{Pkg: "./metrics", Func: "ZZHistSequential", Name: "hist-sampled-count", Params: map[string]int64{"m": 9, "sampled": 1}, Reach: []string{"periods-read"}, Bounds: "sampled histogram (every 4th observation kept), two periods of 0..9 observations (concrete values): the reported count is the number of observations (percentiles of sampled histograms are not claimed)"},
 			{Pkg: "./metrics", Func: "ZZHistWrap", Reach: []string{"wrapped"}, Bounds: "one observation from a ring holding 32766..32769 kept observations (wrap-around of the 32768-slot ring)"},
 			{Pkg: "./metrics", Func: "ZZCounters", Params: map[string]int64{"k": 2}, Sched: true, Race: true, Reach: []string{"counted"}, Bounds: "2 goroutines x 2 symbolic increments (IncCounter / IncCounterBy), every interleaving at atomic operations; counter memory watched for non-atomic access; value read back through getAllCounters"},
 			{Pkg: "./metrics", Func: "ZZHistConcurrent", Params: map[string]int64{"m": 2}, Sched: true, Race: true, Reach: []string{"both-periods-read"}, Bounds: "one observer (2 symbolic observations) against the period switch (extractHist), every interleaving at atomic and lock operations: both resulting periods are consistent; histogram state watched for plain access outside the lock"},
